@@ -102,7 +102,15 @@ fn check_case(rep: &mut Report, text: &str, optimized: &[pest_meta::optimizer::O
     }
     // "completes identically under every larger limit": also the largest limits there are
     if reached {
-        for big in [usize::MAX, usize::MAX / 2 + 1, u32::MAX as usize + 1] {
+        // powers of two plus small amounts below the number of calls this parse needs (a limit that is narrowed,
+        // truncated or wrapped somewhere on its way would turn into one that trips), and the top of the range
+        let hh = hash_bytes(&[text.as_bytes(), rule.as_bytes(), input.as_bytes(), b"huge"]);
+        let d1 = 1 + (hh % (n.max(2) as u64)) as usize;
+        let d2 = (n as usize / 2).max(1);
+        let bases = [1usize << 16, 1 << 31, 1 << 32, 1 << 33, 1 << 40, 1 << 48, 1 << 63];
+        let b1 = bases[(hh >> 8) as usize % bases.len()];
+        let b2 = bases[(hh >> 16) as usize % bases.len()];
+        for big in [usize::MAX, usize::MAX / 2 + 1, u32::MAX as usize + 1, u32::MAX as usize + 1 + d1, b1 + d1, b2 + d2, usize::MAX - d1, (u32::MAX as usize) * 2 + d2] {
             rep.count("evaluations");
             rep.count("huge_limits_tried");
             let (r_l, _, _) = parse_with(vm, rule, input, big);
